@@ -229,10 +229,10 @@ Section Lock.
       apply meq_lift. intros v ->. eapply Hfun; eauto.
   Qed.
 
-  Lemma rel_eval_ident c : meq (fun r => match r with inl v => okv v | inr _ => True end) (eval_ident rs c) (eval_ident rs c).
+  Lemma rel_eval_ident c : meq (fun r => match r with inl v => okv v | inr _ => True end) (eval_ident rs E c) (eval_ident rs E' c).
   Proof.
-    intros lg. split; [reflexivity|]. unfold eval_ident. intros a lg'.
-    destruct (rs empty_env c false O lg) as [[v|e| | |] lg1]; try discriminate.
+    intros lg. unfold eval_ident, ident_env. rewrite <- (ag_now S _ _ HA). split; [reflexivity|]. intros a lg'.
+    destruct (rs (mkEnv false [] [] [] false (e_now E)) c false O lg) as [[v|e| | |] lg1]; try discriminate.
     - destruct v; intros Ev; injection Ev as <- _; exact I.
     - intros Ev; injection Ev as <- _; exact I.
   Qed.
@@ -247,7 +247,7 @@ Section Lock.
     - intros Ev. injection Ev as <- _. exact I.
   Qed.
 
-  Lemma rel_with_ident c k k' : (forall x, meq okv (k x) (k' x)) -> meq okv (with_ident rs c k) (with_ident rs c k').
+  Lemma rel_with_ident c k k' : (forall x, meq okv (k x) (k' x)) -> meq okv (with_ident rs E c k) (with_ident rs E' c k').
   Proof.
     intros Hk. unfold with_ident. eapply meq_bind; [apply rel_eval_ident|]. intros [e|x] Hr; [apply meq_ret; exact Hr|apply Hk].
   Qed.
